@@ -1,6 +1,7 @@
 // h5json: dump an HDF5 file as JSON (no h5py / h5dump in the image).
 //   h5json <file.h5> [--max N]          datasets with more than N values keep dims + per-record hashes but no "data"
 //   h5json --write <out.h5> <n> <raw float32 file with n*n values>   minimal Inovesa start file (/PhaseSpace/data [1][1][n][n])
+//   h5json --write-empty <out.h5> <n>                                 the same with zero records
 // Output: {"datasets": {path: {"dims": [...], "type": "f32|f64|int|str", "data": [...], "rowhash": ["...", ...]}},
 //          "attrs": {"path@name": value}, "links": {path: target}}
 // float32 values are printed with %.9g and float64 with %.17g (round-trip exact); rowhash = FNV-1a of the raw bytes of every
@@ -88,8 +89,18 @@ static int write_start(const char* out, unsigned n, const char* rawfile) {
     return 0;
 }
 
+// a results file whose /PhaseSpace/data exists but holds no record (extendible dataset of length 0)
+static int write_empty(const char* out, unsigned n) {
+    H5::H5File file(out, H5F_ACC_TRUNC); file.createGroup("/PhaseSpace");
+    hsize_t dims[4] = {0, 1, n, n}, maxd[4] = {H5S_UNLIMITED, 1, n, n}, chunk[4] = {1, 1, n, n}; H5::DataSpace sp(4, dims, maxd);
+    H5::DSetCreatPropList pl; pl.setChunk(4, chunk);
+    file.createDataSet("/PhaseSpace/data", H5::PredType::IEEE_F32LE, sp, pl);
+    return 0;
+}
+
 int main(int c, char** v) {
     if (c >= 5 && std::string(v[1]) == "--write") return write_start(v[2], (unsigned)atoi(v[3]), v[4]);
+    if (c >= 4 && std::string(v[1]) == "--write-empty") return write_empty(v[2], (unsigned)atoi(v[3]));
     if (c < 2) { fprintf(stderr, "usage: h5json file.h5 [--max N]\n"); return 2; }
     for (int i = 2; i + 1 < c; i++) if (std::string(v[i]) == "--max") MAXV = strtoull(v[i + 1], 0, 10);
     try {
